@@ -10,9 +10,11 @@ class InjectedIOError(OSError):
 
 
 class FaultFS:
-    def __init__(self, fail_at=None, partial=False):
+    def __init__(self, fail_at=None, partial=False, lose_on_close=False):
         self.fail_at = fail_at
         self.partial = partial
+        # a failing close loses what was written since the open (a store that uploads on close, a failed final flush)
+        self.lose_on_close = lose_on_close
         self.events = []          # (kind, path, info)
         self.open_files = []
 
@@ -65,6 +67,12 @@ class _File:
         if self._f.closed:
             return
         if self._fs._event("close", self._path):
+            if self._fs.lose_on_close:
+                try:
+                    self._f.seek(0)
+                    self._f.truncate()
+                except Exception:
+                    pass
             self._f.close()
             raise InjectedIOError("injected failure of close(%r)" % self._path)
         self._f.close()
